@@ -782,6 +782,23 @@ def gen_pbar(rng):
     return sc
 
 
+def gen_exmix(rng):
+    """exact arithmetic mode on the feature-combination sweep (schedules and most slotted nodes replaced by fixed
+    servers: their timetables are computed in binary floating point, open finding F10)"""
+    sc = gen_mix(rng)
+    for nd in sc["nodes"]:
+        if nd.get("kind") == "sched" or (nd.get("kind") == "slot" and rng.random() < 0.85):
+            nd["kind"] = "std"
+            nd["c"] = rng.choice([1, 2])
+    sc["exact"] = rng.choice([10, 14, 20, 28])
+    sc["dec"] = rng.choice([1, 1, 2])
+    r = rng.random()
+    if r < 0.2:
+        sc["stop"] = rng.choice(["Finish", "Arrive", "Accept", "Complete"])
+        sc["maxc"] = rng.randint(2, 9)
+    return sc
+
+
 def gen_exact(rng):
     """exact arithmetic mode on ordinary nodes: decimal samples with 1-2 digits"""
     base = rng.choice([gen_core1, gen_tandem, gen_prio, gen_renege, gen_sched, lambda r: gen_sched(r, pre_choices=(1, 2, 3)),
@@ -1119,6 +1136,7 @@ def gen_stopcount(rng):
 
 
 FAMILIES = {
+    "exmix": gen_exmix,
     "exdead": gen_exdead,
     "pbar": gen_pbar,
     "fpbjsq": gen_fpbjsq,
